@@ -11,6 +11,7 @@
     minp <p> F*                                -> <kept> | panic:<site>
     pick <r> F*                                -> <idx-id> <cumbits> | err:nan | panic:<site>
     newsampler <t> <k> <p> <mp>                -> <t> <k> <p> <mp>
+    newrng <seed>                              -> nil | seeded          (the sentinel -1 leaves rng nil)
     rng <seed> <n>                             -> <24-bit numerators,>
     hist <fix> <t> <k> <p> <mp> <seed> <ncalls> {F*}^ncalls E
          -> <result of call 1>;<result of call 2>;...   (requested parameters; generator threaded by the model)
@@ -197,6 +198,12 @@ def handle (toks' : List String) : Option String :=
       let mp ← pF
       let P := newParams noExp t k p mp
       pure s!"{showF P.temp} {P.topK} {showF P.topP} {showF P.minP}") rest
+  | "newrng" :: rest =>
+    runTP (do
+      let seed ← int
+      pure (match newRng seed with
+        | none => "nil"
+        | some _ => "seeded")) rest
   | "rng" :: rest =>
     runTP (do
       let seed ← int
